@@ -93,7 +93,7 @@ FILE *fopen(const char *path, const char *mode)
     s->writable = (mode[0] != 'r') || (mode[1] == '+') || (mode[1] != '\0' && mode[2] == '+');
     s->append   = (mode[0] == 'a');
     s->truncate = (mode[0] == 'w');
-    s->content = NULL; s->len = 0; s->pos = 0; s->err = 0; s->eof = 0; s->pending = 0; s->os_writes = 0; s->os_bytes = 0;
+    s->content = NULL; s->len = 0; s->pos = 0; s->err = 0; s->eof = 0; s->pending = 0; s->os_writes = 0; s->os_bytes = 0; s->bufmode = _IOFBF;
     if (mode[0] == 'r') {
         struct v_vfile vf = { 0, NULL, 0 };
         v_fs_lookup(path, &vf);
@@ -128,6 +128,15 @@ int fclose(FILE *fp)
     v_st[i].open = 0;
     v_open_streams--;
     return (v_choice() & 1) ? EOF : 0;        /* a failing close still releases the stream */
+}
+
+/* setvbuf: line buffered => a flush at every newline stored; unbuffered => every call is written at once */
+int setvbuf(FILE *fp, char *buf, int mode, size_t size)
+{
+    (void)buf; (void)size;
+    int i = v_stream_index(fp);
+    if (i >= 0) v_st[i].bufmode = mode;
+    return 0;
 }
 
 int fflush(FILE *fp)
@@ -165,7 +174,18 @@ int vfprintf(FILE *fp, const char *fmt, va_list ap)
     r->complete = 1;
     if (n > 0) v_nw++;
     if (dest == V_DEST_STDOUT) v_stdout_pending += (size_t)n;
-    else if (dest == V_DEST_FILE) v_st[i].pending += (size_t)n;
+    else if (dest == V_DEST_FILE) {
+        struct v_stream *st = &v_st[i];
+        if (st->bufmode == _IONBF) { st->os_writes += 1; st->os_bytes += (size_t)n; }
+        else if (st->bufmode == _IOLBF) {
+            /* everything up to and including each newline is handed over as soon as it is stored */
+            size_t last = 0, k = 0;
+            for (; k < (size_t)n && k < V_WCAP; k++)
+                if (r->data[k] == '\n') { st->os_writes += 1; st->os_bytes += k + 1 - last; last = k + 1; }
+            st->pending += (size_t)n - last;
+        }
+        else st->pending += (size_t)n;
+    }
     return n;
 }
 
